@@ -219,6 +219,7 @@ thiserror! {
 }
 
 /// The parsing state for [`Beatmap`] in [`DecodeBeatmap`].
+#[cfg_attr(rosu_map_verif, derive(Clone, Debug))]
 pub struct BeatmapState {
     pub version: i32,
     pub editor: EditorState,
